@@ -305,6 +305,8 @@ type result struct {
 	Twice []int  `json:"twice"` // tasks whose Start() ran more than once (counted by the task object itself)
 	// the push timeout of this scenario is far above any scheduling delay (2 s): a PushTask that timed out really found no taker
 	LongTO bool `json:"longto"`
+	// hook events (protocol steps of the lane's goroutines) were recorded while the lane shut down
+	Hooks bool `json:"hooks"`
 }
 
 var scenarioSeq atomic.Int32
@@ -380,7 +382,7 @@ func (s *scenario) finish(cancelFirst bool) result {
 	case <-time.After(3 * time.Second):
 	}
 	s.quiesce("final")
-	r := result{Kind: s.kind, N: s.n, Q: s.q, Note: s.note, Evs: s.log.Merge(), LongTO: s.longTO}
+	r := result{Kind: s.kind, N: s.n, Q: s.q, Note: s.note, Evs: s.log.Merge(), LongTO: s.longTO, Hooks: !s.hookQuiet.Load() && !s.quiet.Load()}
 	for _, t := range all {
 		if t.starts.Load() > 1 {
 			r.Twice = append(r.Twice, t.id)
